@@ -400,6 +400,8 @@ var checkC15 = register("C15/ops", func(c opsCase) string {
 	if !ok {
 		return ""
 	}
+	initialOK := !c.FieldBuilt && refAccept(newStrCase(c.Ver, spec.Level(c.Level), false, c.Input))
+	dirty := false
 	recipe := c
 	recipe.Ops = nil
 	recipe.PreQuery = false // the twin is never queried before its Decode
@@ -501,6 +503,9 @@ var checkC15 = register("C15/ops", func(c opsCase) string {
 				}
 			}
 		case "set":
+			if dirty {
+				continue
+			}
 			val, ok := fieldValue(c.Ver, o.Field, o.Index)
 			if !ok || !a.setField(o.Field, val) {
 				continue
@@ -508,27 +513,31 @@ var checkC15 = register("C15/ops", func(c opsCase) string {
 			assigns = append(assigns, o)
 			reference = strip(twin().snap())
 		case "redecode":
-			// a second Decode on the used object: the unchanged library refuses it (same
-			// metric); if it is accepted, the object must be what a fresh decoder produces
-			// (only while no exported field has been assigned by the harness: Decode does not
-			// promise to reset fields a caller wrote, e.g. those of an absent v2 group)
-			if c.NilRecv || len(assigns) > 0 || c.FieldBuilt || viewsOnly {
+			// A further Decode on an object that has been decoded successfully before. The
+			// unchanged library always refuses it (same metric); if it is accepted, the object
+			// must be exactly what a fresh decoder produces for that string. Not generated for
+			// receivers of a failed first Decode (what they accept later is outside every
+			// property's quantifier) nor once the harness has assigned a field (Decode does not
+			// promise to reset fields a caller wrote).
+			if c.NilRecv && !initialOK || !initialOK || len(assigns) > 0 || c.FieldBuilt || viewsOnly {
 				continue
 			}
 			err := a.redecode(o.Vector)
 			if err != nil {
-				return "" // the object is now in an unspecified state: the sequence ends here
+				dirty = true // refused: the object's state is unspecified until a Decode succeeds
+				continue
 			}
 			fresh, ok := makeSubject(opsCase{Ver: c.Ver, Level: c.Level, Input: o.Vector})
 			if !ok {
 				continue
 			}
 			if !refAccept(newStrCase(c.Ver, spec.Level(c.Level), false, o.Vector)) {
-				return fmt.Sprintf("step %d: a second Decode(%q) on a used object succeeded although a fresh decoder rejects that string", i+1, o.Vector)
+				return fmt.Sprintf("step %d: a further Decode(%q) on a used object succeeded although a fresh decoder rejects that string", i+1, o.Vector)
 			}
 			if d := a.snap().diff(fresh.snap()); d != "" {
-				return fmt.Sprintf("step %d: a second Decode(%q) on a used object succeeded but the object differs from a fresh decode: %s", i+1, o.Vector, d)
+				return fmt.Sprintf("step %d: a further Decode(%q) on a used object succeeded but the object differs from a fresh decode: %s", i+1, o.Vector, d)
 			}
+			dirty = false
 			recipe.Input = o.Vector
 			assigns = nil
 			viewsOnly = false
@@ -552,6 +561,9 @@ var checkC15 = register("C15/ops", func(c opsCase) string {
 			}
 		default:
 			continue
+		}
+		if dirty {
+			continue // after a refused Decode nothing is asserted until a Decode succeeds
 		}
 		if m := check(i+1, o); m != "" {
 			return m
@@ -627,7 +639,7 @@ func drawOps(rt *rapid.T, ver int, level spec.Level) []op {
 func TestC15(t *testing.T) {
 	c := begin(t, "C15")
 	defer c.end()
-	c.rec.F.Rule = "rapid operation sequences (1-40 steps) over an object obtained from a v2 or v3 decoder of any level on a valid, mutated or arbitrary input (successful object, or the receiver left behind by a failed decode): observer queries (Score, Severity, GetError, Encode, String on every level view reached through the accessors), full observations, report construction and export, exported-field assignments (any code or the unknown/invalid constant), a second Decode on the used object (must fail, or yield exactly what a fresh decoder yields), and noise (decoding, querying and reporting other vectors); one case in four queries the constructor result completely *before* its Decode. Subjects are also built by pure field assignment on a constructor result (no Decode), and v2 subjects may have optional-group fields assigned before their Decode (then only query results are compared). A deterministic sweep runs query / assign / query for every exported field x every value on 6 representative vectors, for decoded, pre-queried and field-built subjects. After every step the queried object must equal a freshly decoded, never-queried twin rebuilt from the recipe (exported fields by reflection, every query result at every level, v3 report structs in en and ja), the twin must equal the twin built before the history, and every query repeated twice must agree. Parsers: every code of every metric parsed 200 times. Non-trivial = a sequence containing a query, a later field assignment and a later query, or any query on a failed-decode receiver; distinct by hash of the case."
+	c.rec.F.Rule = "rapid operation sequences (1-40 steps) over an object obtained from a v2 or v3 decoder of any level on a valid, mutated or arbitrary input (successful object, or the receiver left behind by a failed decode): observer queries (Score, Severity, GetError, Encode, String on every level view reached through the accessors), full observations, report construction and export, exported-field assignments (any code or the unknown/invalid constant), further Decodes on an object that was decoded successfully (each must fail, or yield exactly what a fresh decoder yields; after a refused one nothing is asserted until one succeeds), and noise (decoding, querying and reporting other vectors); one case in four queries the constructor result completely *before* its Decode. Subjects are also built by pure field assignment on a constructor result (no Decode), and v2 subjects may have optional-group fields assigned before their Decode (then only query results are compared). A deterministic sweep runs query / assign / query for every exported field x every value on 6 representative vectors, for decoded, pre-queried and field-built subjects. After every step the queried object must equal a freshly decoded, never-queried twin rebuilt from the recipe (exported fields by reflection, every query result at every level, v3 report structs in en and ja), the twin must equal the twin built before the history, and every query repeated twice must agree. Parsers: every code of every metric parsed 200 times. Non-trivial = a sequence containing a query, a later field assignment and a later query, or any query on a failed-decode receiver; distinct by hash of the case."
 	c.rec.F.Assumptions = []string{"only observable state is compared (exported fields and query results), as the property words it", "a decoder object is used for one Decode call; re-decoding into a used object is not generated"}
 	nviol := 0
 	if shard == 0 {
